@@ -58,6 +58,12 @@ Theorem C16_special_pattern_total :
 Proof. exact special_pattern_valid_of_ok. Qed.
 Print Assumptions C16_special_pattern_total.
 
+(* The repairs only restrict: every configuration the repaired loader accepts was accepted by the original
+   loader (the eleven fixes turn acceptances and crashes into error values, they accept nothing new). *)
+Theorem C16_fixes_only_restrict : forall c, verify fixed_quirks c = Ok tt -> verify original_quirks c = Ok tt.
+Proof. exact fixes_only_restrict_lemma. Qed.
+Print Assumptions C16_fixes_only_restrict.
+
 (* Non-vacuity: a configuration with switch / if / block nesting, sampled drop, templates with slices,
    both extractors, named captures, two outputs and an inline+unescape rewriter chain is accepted
    (86 reference sites); the assumption on the libraries is satisfiable. *)
